@@ -1379,3 +1379,131 @@ def c14_3(ctx):
     error) and the definition text stored for each member workflow parses
     to exactly the member that was written."""
     yield from c14_3_cases(ctx)
+
+
+# ----------------------------------------------------------------------
+# C14.4  accepted definitions are runnable
+# ----------------------------------------------------------------------
+def c14_4_cases(ctx, oid='C14.4'):
+    for bname, (kind, text) in BASES.items():
+        if kind != 'wf':
+            continue
+
+        def mk(op, bname=bname, text=text):
+            holder = {}
+
+            def case():
+                from vt.world import World
+                from vt import minidb, env
+                from mistral import exceptions as exc
+                from mistral.lang import parser as spec_parser
+                if 'doc' not in holder:
+                    holder['doc'] = _load(text)
+                doc = copy.deepcopy(holder['doc'])
+                desc = _mutate(doc, ctx.quick, 1, ops=(op,))
+                try:
+                    mtext = _dump(doc)
+                except Exception:  # noqa
+                    raise symx.PathAbort()
+                fast_schema_check()
+                spec_parser.clear_caches()
+                status, val = run_total('parse', parse_entry('wf'), mtext)
+                if status != 'accept' or val is None:
+                    raise symx.PathAbort()      # C14.1's business
+                # the service must take it as well (names with blanks ...)
+                with minidb.installed(_db(), per_thread_tx_lock=False), \
+                        env.auth_ctx('proj-a', False):
+                    st, _ = run_total('create', service_entries('wf')[0][1],
+                                      mtext)
+                if st != 'accept':
+                    raise symx.PathAbort()
+                reach('accepted')
+                info = {'mutation': desc, 'text': mtext[:1500]}
+                w = World([mtext])
+                with w:
+                    for wf_spec in val.get_workflows():
+                        name = wf_spec.get_name()
+                        inp = {k: 1 for k, v in wf_spec.get_input().items()
+                               if v is utils_no_value()}
+                        n0 = len(w.errors)
+                        wid = w.start(name, inp)
+                        sig = '%s:%s' % (oid, bname)
+                        bad = [(m, repr(e)[:200]) for m, e in w.errors[n0:]
+                               if not isinstance(e, (exc.MistralException,
+                                                     exc.MistralError))]
+                        check(not bad, 'start-failed-with-internal-error',
+                              dict(info, signature=sig + ':start:%s' % (
+                                  bad and bad[0][1].split('(')[0]),
+                                  errors=bad))
+                        if wid is None:
+                            reach('start-refused')
+                            continue
+                        try:
+                            w.run(max_events=150)
+                        except symx.HarnessError:
+                            check(False, 'run-does-not-come-to-rest',
+                                  dict(info, signature=sig + ':endless',
+                                       pending=[repr(e) for e in
+                                                w.events[:6]]))
+                            return
+                        x = w.wf_ex(wid)
+                        reach('ran')
+                        reach('ended-' + x['state'])
+                        bad = [(m, repr(e)[:200]) for m, e in w.errors[n0:]
+                               if not isinstance(e, (exc.MistralException,
+                                                     exc.MistralError,
+                                                     ValueError))]
+                        check(not bad, 'engine-raised-internal-error',
+                              dict(info, signature=sig + ':engine:%s' % (
+                                  bad and bad[0][1].split('(')[0]),
+                                  errors=bad, wf=name))
+                        check(not w.swallowed,
+                              'post-commit-operation-failed',
+                              dict(info, signature=sig + ':post-commit',
+                                   errors=[repr(s_)[:200]
+                                           for s_ in w.swallowed]))
+                        check(x['state'] in ('SUCCESS', 'ERROR', 'CANCELLED',
+                                             'PAUSED'),
+                              'accepted-definition-does-not-finish',
+                              dict(info, signature=sig + ':stuck:%s' %
+                                   x['state'], wf=name, state=x['state'],
+                                   tasks=[(t['name'], t['state'])
+                                          for t in w.tasks(wid)]))
+            return case
+        for op in ('replace', 'delete', 'extra'):
+            yield Case('%s/%s' % (bname, op), mk(op),
+                       needed=['accepted', 'ran'], max_paths=400000)
+
+
+def utils_no_value():
+    from mistral_lib import utils
+    return utils.NotDefined
+
+
+@obligation(
+    'C14.4', engine='symx+world(minidb)',
+    functions=['mistral.engine.default_engine:DefaultEngine.start_workflow',
+               'mistral.engine.workflows:Workflow.start',
+               'mistral.engine.task_handler:run_task',
+               'mistral.engine.task_handler:_on_action_complete',
+               'mistral.engine.policies:build_policies',
+               'mistral.workflow.data_flow:evaluate_workflow_output',
+               'mistral.lang.parser:get_workflow_spec_by_execution_id'],
+    bounds={'quick': 'every ACCEPTED single mutation (operators replace / '
+                     'delete / add key, quick catalogue) of the 3 workflow '
+                     'base documents is started on the real engine with the '
+                     'required inputs set to 1 and run FIFO with the real '
+                     'std actions until nothing is pending',
+            'thorough': 'same with the full catalogue'},
+    stubs=['minidb', 'QueueRPC', 'FakeScheduler (timers fire in queue '
+           'order)', 'FakeExecutor running the real action classes',
+           'post-commit queue inline'],
+    outside='other inputs, other delivery orders, sub-workflows that do not '
+            'exist (declared error)',
+    timeout=(500, 3000))
+def c14_4(ctx):
+    """an accepted definition can be started and its run comes to rest in a
+    final (or paused) state; the engine answers problems in the definition
+    with declared errors, never with an internal error, a failed post-commit
+    operation or a run that never ends"""
+    yield from c14_4_cases(ctx)
